@@ -387,7 +387,55 @@ func main() {
 			}
 		}
 	}
+	// directed: an expiring rule, a rule that goes with it, and a third rule, all three matching one event;
+	// the first thing that happens after the expiry is that event
+	type trio struct {
+		kind string
+		loc  *core.Location
+	}
+	var trios []trio
+	for i := 0; i < 6; i++ {
+		for _, kind := range drv.Kinds {
+			l, err := drv.NewLoc("T", kind, drv.MustMem())
+			if err != nil {
+				continue
+			}
+			when := map[string]interface{}{"pattern": map[string]interface{}{"e": "x"}}
+			l.AddRule(drv.Ctx(), fmt.Sprintf("k%d-stays", i), core.Map{"when": when, "action": map[string]interface{}{"code": "'stays'"}})
+			l.AddRule(drv.Ctx(), fmt.Sprintf("a%d-expires", i), core.Map{"when": when, "action": map[string]interface{}{"code": "'expired'"}, "ttl": 1.0})
+			l.AddRule(drv.Ctx(), fmt.Sprintf("z%d-goes-with-it", i), core.Map{"when": when, "action": map[string]interface{}{"code": "'dependent'"}, "deleteWith": []interface{}{fmt.Sprintf("a%d-expires", i)}})
+			l.AddRule(drv.Ctx(), fmt.Sprintf("b%d-goes-with-it", i), core.Map{"when": when, "action": map[string]interface{}{"code": "'dependent'"}, "deleteWith": []interface{}{fmt.Sprintf("a%d-expires", i)}})
+			trios = append(trios, trio{kind, l})
+		}
+	}
 	time.Sleep(2200 * time.Millisecond)
+	for _, t := range trios {
+		fr, cond := t.loc.ProcessEvent(drv.Ctx(), core.Map{"e": "x"})
+		vals := []string{}
+		if fr != nil {
+			for _, v := range fr.Values {
+				vals = append(vals, fmt.Sprint(v))
+			}
+		}
+		sort.Strings(vals)
+		r.Case(true, "expiry-first-seen-by-an-event"+t.kind+fmt.Sprint(len(trios)))
+		r.Count("expiry_first_seen_by_an_event", 1)
+		// the dependents may still run in this very event (they go when the expiry is noticed); the rule that
+		// stays must run, the expired one must not, and the event must not fail
+		bad := cond != nil
+		stays := false
+		for _, v := range vals {
+			if v == "stays" {
+				stays = true
+			}
+			if v == "expired" {
+				bad = true
+			}
+		}
+		if bad || !stays {
+			r.Violate("", "the first event after a rule expired (two other matching rules go with it, a third stays) failed or did not run the rule that stays", rep.J{"state": t.kind, "values": vals, "condition": cond})
+		}
+	}
 	for _, p := range pending {
 		wg.Add(1)
 		go func(p pend) {
